@@ -655,7 +655,7 @@ class Root:
 
 
 def proj_path(pl):
-    """field path of a place as ((name, owner), ...); payload projections of enum variants
+    """field path of a place as ((name, owner), ...); positional payload projections of enum variants
     (`@Some` then `.0`) are dropped, as are derefs and indices."""
     fs = []
     prev_down = False
@@ -666,7 +666,8 @@ def proj_path(pl):
             prev_down = True
             continue
         if e.startswith("."):
-            if prev_down:
+            if prev_down and e[1:].isdigit():
+                # positional payload of a variant (`@Some.0`); NAMED fields of struct-like variants are kept
                 prev_down = False
                 continue
             fs.append((e[1:], o[i] if i < len(o) else ""))
